@@ -114,6 +114,6 @@ pub fn run(case: &Sx) -> (Sx, String) {
         Ok((class, leaf)) => (Sx::l(vec![Sx::n(class), match leaf { Some(l) if entry == 0 => Sx::l(vec![Sx::s(&l)]), _ => Sx::l(vec![]) }]),
                               format!("{} {}", ENTRIES[entry as usize], if class == 0 { "ok" } else { "err" })),
         Err(e) => { let msg = if let Some(s) = e.downcast_ref::<String>() { s.clone() } else if let Some(s) = e.downcast_ref::<&str>() { s.to_string() } else { "?".into() };
-                    (Sx::l(vec![Sx::n(2), Sx::l(vec![])]), format!("{} PANIC at {} {}", ENTRIES[entry as usize], LAST_LOC.lock().unwrap(), msg.chars().take(60).collect::<String>().replace('\n', " "))) }
+                    (Sx::l(vec![Sx::n(if LAST_LOC.lock().unwrap().contains("/rexile-") { 3 } else { 2 }), Sx::l(vec![])]), format!("{} PANIC at {} {}", ENTRIES[entry as usize], LAST_LOC.lock().unwrap(), msg.chars().take(60).collect::<String>().replace('\n', " "))) }
     }
 }
